@@ -78,3 +78,9 @@ check('C19', 'exploration',
       'through BIOGEME.calculate_likelihood at 3 parameter points equals the reference corrected model and, under complete sampling, the textbook full-choice-set model.',
       'True partitions and unique ids only; (first answer, second answer) pairs are the full product only up to 48 per context, otherwise a covering diagonal; rows of one table treated as independent; sampled nested/CNL cases needing log(0) excluded and counted.',
       'bounded exhaustive enumeration of partitions x sample sizes x choices x every answer of the owned sampler vs a protocol / likelihood reference', 'DESIGN.md section 4, C19')
+check('C13', 'model_checking',
+      'Explicit-state breadth-first search over operation histories of the real biogeme.database.Database; a state is a history, replayed on fresh objects and merged on a canonical form of the real object. From three 5-row root tables (RangeIndex, permuted labels, duplicate labels) every sequence of '
+      'remove / add_column / define_variable / scale_column / panel / build_panel_map is explored to depth 3 (thorough 4), plus 18 chains of 6-7 operations; each step is compared cell by cell with a naive plain-Python reference table. In every expanded state every split (all shuffle permutations; slices 2-5; groups None/id/c), '
+      'sample (all index vectors), extract_rows, count, flatten and values_from_database is executed and compared (quick 9e4 executions over 958 states; thorough 1.9e6 over 12269).',
+      'Tables bounded to 5 rows with dyadic values in five alphabets; randomness owned at numpy.random.randint / shuffle and DataFrame.sample(frac=1); order inside an individual after the (unstable) panel sort left free; frontiers at the depth bound are reported, not expanded.',
+      'explicit-state BFS over operation histories on the real object, all random answers enumerated, against a naive reference table', 'DESIGN.md section 4, C13')
